@@ -3,6 +3,7 @@ package main
 import (
 	"bytes"
 	"fmt"
+	"strings"
 
 	"github.com/go-gts/gts"
 	"github.com/go-gts/gts/seqio"
@@ -36,9 +37,14 @@ func mkArgs(hl, gl, spare, tspare int) (buf []byte, host, guest gts.Sequence, ht
 		hb = buf[2 : 2+hl : 2+hl]
 		gb = buf[2+hl : 2+hl+gl : 2+hl+gl]
 	}
+	if spare == 8 {
+		// the guest lies before the host, so the bytes after the host are not the guest's
+		gb = buf[2 : 2+gl]
+		hb = buf[2+gl : 2+gl+hl]
+	}
 	hstore := make([]gts.Feature, 0, 3+tspare)
 	hstore = append(hstore,
-		gts.Feature{Key: "source", Loc: gts.Range(0, hl), Props: gts.Props{{"organism", "x"}}},
+		gts.Feature{Key: "source", Loc: sourceLoc(hl, tspare), Props: gts.Props{{"organism", "x"}}},
 		gts.Feature{Key: "gene", Loc: gts.Join(gts.Range(0, 1), gts.PartialRange(2, hl, gts.Partial3)), Props: gts.Props{{"gene", "a", "b"}}},
 		gts.Feature{Key: "misc", Loc: gts.Complemented{Location: gts.Order(gts.Point(1), gts.Range(2, 3))}, Props: gts.Props{{"note", "n"}}})
 	gstore := make([]gts.Feature, 0, 1+tspare)
@@ -48,17 +54,31 @@ func mkArgs(hl, gl, spare, tspare int) (buf []byte, host, guest gts.Sequence, ht
 	htab, gtab = hstore, gstore
 	host = gts.New("host info", htab, hb)
 	guest = gts.New("guest info", gtab, gb)
+	curGB = mkGB(host)
 	return
+}
+
+// the source feature is a plain range, or (for odd table spare) a join of
+// partial ranges, which Slice completes (asComplete)
+func sourceLoc(hl, tspare int) gts.Location {
+	if tspare%2 == 1 && hl >= 4 {
+		return gts.Join(gts.PartialRange(0, 2, gts.Partial5), gts.PartialRange(3, hl, gts.Partial3))
+	}
+	return gts.Range(0, hl)
 }
 
 func snapshot(buf []byte, host, guest gts.Sequence, htab, gtab gts.FeatureSlice) string {
 	// views of the arguments, the whole enclosing buffer and the spare slots of the tables
-	return fmt.Sprintf("%x|%s|%s|%x|%x|%v|%v|%s|%s", buf, featsSx(host.Features()), featsSx(guest.Features()),
+	refs := curGB.Fields.References
+	gbv := fmt.Sprintf("%v|%v|%s|%s", curGB.Fields, refs[:cap(refs)], featsSx(curGB.Table), curGB.Origin.String())
+	return fmt.Sprintf("%x|%s|%s|%x|%x|%v|%v|%s|%s|%s", buf, featsSx(host.Features()), featsSx(guest.Features()),
 		host.Bytes(), guest.Bytes(), host.Info(), guest.Info(),
-		featsSx(htab[:cap(htab)]), featsSx(gtab[:cap(gtab)]))
+		featsSx(htab[:cap(htab)]), featsSx(gtab[:cap(gtab)]), gbv)
 }
 
-var aliasOps = []string{"insert", "embed", "delete", "erase", "slice", "slicewrap", "concat", "concat3", "reverse", "rotate", "complement",
+var aliasOps = []string{"insert@0", "insert@end", "embed@0", "embed@end", "delete@0", "delete@all", "erase@all", "slice@all", "slice@head", "slice@tail",
+	"rotate@0", "rotate@len", "gb:slice", "gb:slice@all", "gb:slice@tail", "gb:insert@end", "gb:delete", "gb:reverse", "gb:rotate", "gb:concat",
+	"insert", "embed", "delete", "erase", "slice", "slicewrap", "concat", "concat3", "reverse", "rotate", "complement",
 	"transcribe", "withbytes", "withfeatures", "withinfo", "repair", "filter", "fsinsert", "locate", "search", "match"}
 
 func runAliasOp(op string, host, guest gts.Sequence, hl, gl int) (res gts.Sequence) {
@@ -67,7 +87,36 @@ func runAliasOp(op string, host, guest gts.Sequence, hl, gl int) (res gts.Sequen
 			res = gts.New("PANIC", nil, nil)
 		}
 	}()
+	if strings.HasPrefix(op, "gb:") {
+		// the same operations on a GenBank record: metadata with REFERENCE entries
+		op = op[3:]
+		host = gbHost(host)
+	}
 	switch op {
+	case "insert@0":
+		return gts.Insert(host, 0, guest)
+	case "insert@end":
+		return gts.Insert(host, hl, guest)
+	case "embed@0":
+		return gts.Embed(host, 0, guest)
+	case "embed@end":
+		return gts.Embed(host, hl, guest)
+	case "delete@0":
+		return gts.Delete(host, 0, 1)
+	case "delete@all":
+		return gts.Delete(host, 0, hl)
+	case "erase@all":
+		return gts.Erase(host, 0, hl)
+	case "slice@all":
+		return gts.Slice(host, 0, hl)
+	case "slice@head":
+		return gts.Slice(host, 0, hl/2)
+	case "slice@tail":
+		return gts.Slice(host, hl/2, hl)
+	case "rotate@0":
+		return gts.Rotate(host, 0)
+	case "rotate@len":
+		return gts.Rotate(host, hl)
 	case "insert":
 		return gts.Insert(host, hl/2, guest)
 	case "embed":
@@ -116,6 +165,26 @@ func runAliasOp(op string, host, guest gts.Sequence, hl, gl int) (res gts.Sequen
 	panic("unknown op " + op)
 }
 
+// curGB is the GenBank view of the current case's host: built by mkArgs, part
+// of every snapshot, used by the gb: operations.
+var curGB seqio.GenBank
+
+func mkGB(host gts.Sequence) seqio.GenBank {
+	n := gts.Len(host)
+	refs := make([]seqio.Reference, 3, 5)
+	refs[0] = seqio.Reference{Number: 1, Info: fmt.Sprintf("(bases 1 to %d)", n), Title: "whole"}
+	refs[1] = seqio.Reference{Number: 2, Info: "(bases 1 to 1)", Title: "first base"}
+	refs[2] = seqio.Reference{Number: 3, Info: fmt.Sprintf("(bases %d to %d; 1 to 2)", n-1, n), Title: "last bases"}
+	return seqio.GenBank{
+		Fields: seqio.GenBankFields{LocusName: "HOST", Molecule: gts.DNA, Topology: gts.Circular, Accession: "A1", Version: "A1.1",
+			References: refs, Keywords: []string{"k1", "k2"}, Comments: []string{"c"}},
+		Table:  host.Features(),
+		Origin: seqio.NewOrigin(host.Bytes()),
+	}
+}
+
+func gbHost(host gts.Sequence) gts.Sequence { return curGB }
+
 func aliasCase(op string, hl, gl, spare, tspare int) string {
 	buf, host, guest, htab, gtab := mkArgs(hl, gl, spare, tspare)
 	before := snapshot(buf, host, guest, htab, gtab)
@@ -143,11 +212,24 @@ func aliasBytes(op, hl, gl int, spare bool, buf []byte) string {
 		hb = buf[2 : 2+hl : 2+hl]
 		gb = buf[2+hl : 2+hl+gl : 2+hl+gl]
 	}
+	if op == 5 || op == 6 {
+		// the guest lies before the host: what follows the host is not the guest
+		gb = buf[2 : 2+gl]
+		hb = buf[2+gl : 2+gl+hl]
+		if !spare {
+			gb = buf[2 : 2+gl : 2+gl]
+			hb = buf[2+gl : 2+gl+hl : 2+gl+hl]
+		}
+	}
 	host, guest := gts.New(nil, nil, hb), gts.New(nil, nil, gb)
 	var r gts.Sequence
 	switch op {
 	case 0:
 		r = gts.Insert(host, hl/2, guest)
+	case 3, 5:
+		r = gts.Insert(host, hl, guest)
+	case 4:
+		r = gts.Insert(host, 0, guest)
 	case 1:
 		r = gts.Rotate(host, 2)
 	default:
@@ -180,7 +262,7 @@ func aliasTable(n, spare, i int) string {
 }
 
 func runC11(o *Out) {
-	for op := 0; op <= 2; op++ {
+	for op := 0; op <= 6; op++ {
 		for hl := 2; hl <= 6; hl++ {
 			for gl := 0; gl <= 3; gl++ {
 				for _, spare := range []int{0, 1, 5} {
